@@ -11,13 +11,19 @@
    Hypotheses:  name is in MemMapFs normal form and is not "/";  the base holds a regular file
    `name` with bytes dat (reg_file);  the layer is `layer_sane`: either the parent directory of
    name is registered (a directory node with a child index) and name is absent or a regular file
-   whose node carries that name (an older copy) — or neither the parent nor name has an entry.
+   whose node carries that name (an older copy) — or neither the parent nor name has an entry and
+   the MkdirAll of the parent is not refused (mkdirall_clear: walking up from the parent's own
+   parent with filepath.Dir, the first existing name is a directory, or there is none.  Since
+   MemMapFs refuses to create below a regular file — ENOTDIR, Gen/Consts.v
+   memfs_refuses_below_file = 1 — a regular file among the missing parent's ancestors makes the copy
+   fail with that error, the layer untouched, and no fault involved; before that repair the model,
+   like the code, turned the regular file into a directory and the copy "succeeded").
    Conclusion (three_way sl sl' name dat r): afterwards the layer's entry for name is
      absent, and an error is returned;  or
      exactly the entry before (same path-map slot, same node), and an error is returned;  or
      a regular file whose bytes are dat. *)
 From AF Require Import Lib.Bytes Lib.Path Lib.Ops Gen.Consts Model.MemFile Model.MemFs Model.Union Model.Cow Model.Cache
-  Model.Faulty Proofs.FaultyMem Proofs.FaultyProof Proofs.FaultyMain.
+  Model.Faulty Proofs.MemBelow Proofs.FaultyMem Proofs.FaultyProof Proofs.FaultyMain.
 Local Open Scope Z_scope.
 
 (* ANY plan with at most one non-Pass entry, faults on the LAYER side *)
@@ -206,7 +212,8 @@ Proof.
   split; [vm_compute; reflexivity|]. split; [discriminate|].
   split. { exists 2%nat. eexists. split; [vm_compute; reflexivity|]. split; [vm_compute; reflexivity|].
            split; vm_compute; reflexivity. }
-  split. { right. split; vm_compute; reflexivity. }
+  split. { right. split; [vm_compute; reflexivity|]. split; [vm_compute; reflexivity|].
+           apply (cc_dir m_init _ 0%nat root_node); vm_compute; reflexivity. }
   split. { left. split.
            - exists 1%nat. eexists. split; [vm_compute; reflexivity|]. split; [vm_compute; reflexivity|].
              split; vm_compute; reflexivity.
